@@ -448,3 +448,49 @@ Section Macros.
     change (mem_c c default_alpha) with (is_alpha c). rewrite Hc. reflexivity.
   Qed.
 End Macros.
+
+(** * Comments *)
+Lemma find_sub_nl text r : mem_c 10 text = false -> find_sub (text ++ 10%N :: r) [10%N] = Some (length text).
+Proof.
+  induction text as [|c text IH]; intros H.
+  - cbn [app find_sub startswith length]. rewrite N.eqb_refl. destruct r; reflexivity.
+  - cbn [mem_c existsb] in H. apply orb_false_iff in H. destruct H as [H1 H2].
+    cbn [app find_sub startswith length]. rewrite H1. cbn [andb].
+    change (existsb (N.eqb 10) text) with (mem_c 10 text) in H2. rewrite (IH H2). reflexivity.
+Qed.
+
+Lemma firstn_len_app {A} (a b : list A) : firstn (length a) (a ++ b) = a.
+Proof. induction a as [|x a IH]; [reflexivity|]. cbn. f_equal. exact IH. Qed.
+
+Lemma space_10 : is_space 10 = true. Proof. vm_compute. reflexivity. Qed.
+Lemma space_37 : is_space 37 = false. Proof. vm_compute. reflexivity. Qed.
+
+Section Comments.
+  Variables (cx : context) (ps : pstate).
+  Hypothesis V : std_view cx ps.
+
+  Lemma dispatch_comment s p pre text post fol :
+    skipn p s = 37%N :: text ++ post ++ fol ->
+    mem_c 10 text = false -> ws_ok post = true -> (exists w, post = 10%N :: w) -> hd_not is_space fol ->
+    dispatch ps s (37%N :: text ++ post ++ fol) p pre 37%N
+    = TokOk (mk TkComment text p (p + 1 + length text + length post) pre post).
+  Proof.
+    intros SK NT W [w ->] HF. apply ws_ok_split in W. destruct W as [W1 W2].
+    unfold dispatch. rewrite (stage_math_none cx ps V), (stage_escape_none cx ps V) by reflexivity.
+    cbn [orelse]. unfold stage_comment. rewrite (sv_comment _ _ V), (sv_comments _ _ V).
+    assert (S1 : startswith (37%N :: text ++ (10%N :: w) ++ fol) [37%N] = true).
+    { cbn [startswith]. rewrite N.eqb_refl. destruct (text ++ (10%N :: w) ++ fol); reflexivity. }
+    rewrite S1. cbn [N.eqb Pos.eqb andb orelse]. f_equal.
+    unfold read_comment. rewrite (sv_comment _ _ V). cbn [length].
+    pose proof (skipn_cons_lt _ _ _ _ SK) as [PL SK1].
+    replace (p + 1) with (S p) by lia.
+    assert (F : find_from s [10%N] (S p) = Some (S p + length text)).
+    { unfold find_from. assert (L : Nat.ltb (length s) (S p) = false) by (apply Nat.ltb_ge; lia).
+      rewrite L, SK1. cbn [app]. rewrite (find_sub_nl text _ NT). reflexivity. }
+    rewrite F.
+    assert (SK2 : skipn (S p + length text) s = (10%N :: w) ++ fol) by (apply skipn_shift in SK1; exact SK1).
+    unfold post_space_at. rewrite (peek_space_at s _ (10%N :: w) fol SK2 W1 HF), W2.
+    unfold slice. rewrite SK1. replace (S p + length text - S p) with (length text) by lia.
+    rewrite firstn_len_app. reflexivity.
+  Qed.
+End Comments.
